@@ -16,9 +16,3 @@
 (show (map (lambda (p) (p 100)) procs))
 (show (garbage 40))
 (show (map (lambda (p) (p 1000)) procs))
-;; the same through the standard environment copy and a nested eval
-(define q (let ((e (scheme-report-environment 7)))
-            (eval '(define tbl (vector 1 2 3)) e)
-            (eval '(define (get i) (vector-ref tbl i)) e)
-            (eval '(lambda (i) (cons (get i) (eval '(get 0) (current-environment)))) e)))
-(show (garbage 60) (q 2) (q 1))
